@@ -22,13 +22,13 @@ CLAIMED = {
    note='Outside: check_data_update_allowed on a live DefaultSolver (constructing one needs AMD); end-to-end agreement of the following solve.' + _TB, design="DESIGN.md §3 C08, §6"),
  "C09": dict(text=_KANI + "Decides the presolver at the kernel level: which rows are dropped (all f64 incl. NaN/inf), the reduced A,b,cones, the restoration of s,z at the user's length with z=0 and s=bound, that the bound is captured at construction, and - through the REAL DefaultProblemData::new with an active presolver - that rows of other cones at or above the bound are capped, never dropped.",
    note='m=4, 8 cone layouts, enumerated A patterns/drop masks with symbolic values. Outside: that the reduced solve is a solve of the hand-reduced problem (IPM).' + _TB, design="DESIGN.md §3 C09, §6"),
- "C10": dict(text=_KANI + 'Decides on the REAL generic equilibrate over GF(13), for all data (one Ruiz sweep quick, two thorough), that the factors applied to P,q,A,b are exactly the recorded d,e,c, that dinv,einv are their inverses and that E is constant over non-scalar cones; at f64 that disabling leaves the data untouched and - thorough tier only, 20-40 min each - that zero rows/columns stay unscaled and (data = powers of two over 24 orders of magnitude) the cumulative d,e,c stay within [min,max].',
+ "C10": dict(text=_KANI + 'Decides on the REAL generic equilibrate over GF(13), for all data (one Ruiz sweep quick, two thorough), that the factors applied to P,q,A,b are exactly the recorded d,e,c, that dinv,einv are their inverses and that E is constant over non-scalar cones; at f64 that disabling leaves the data untouched and - thorough tier only, 20-40 min each - that zero rows/columns stay unscaled and (data = powers of two over 24 orders of magnitude) the cumulative d,e,c stay within [min,max]; quick tier: every row and column factor of NON-SQUARE data is clipped into [min,max] (one sweep).',
    note='Outside: cumulative bounds for general significands (rounded products); PSD.' + _TB, design="DESIGN.md §3 C10, §6"),
  "C11": dict(text=_KANI + "Decides the KKT assembly: every P, A, diagonal, Hs-block and second-order-cone sparse-expansion (u, v, D) entry sits at its recorded position with the user's value, index sets are disjoint and cover K, in both triangles; that the dense/sparse SOC block written into K is the operator mul_Hs (GF(7)); and that regularise/refactor/restore keeps the engine's copy in sync and the solver's copy unregularised (mirror engine).",
    note='n=2; enumerated P patterns, A patterns and cone layouts incl. [SOC5], [SOC2,SOC5], symbolic values. Sparse layouts go through the hook assemble_kkt_matrix_soc_store (validated natively by tv_kkt). Outside: GenPow expansion; the real LDL engines.' + _TB, design="DESIGN.md §3 C11, §6"),
- "C12": dict(text=_KANI + "Decides the QDLDL unit chain: permutation validation/inversion, symmetric permutation map, elimination tree + factorisation (L D L' = A exactly over GF(13) for all values, Ok iff all leading minors nonzero), triangular solves, refactor = fresh factor, regularisation/inertia logic at f64.",
+ "C12": dict(text=_KANI + "Decides the QDLDL unit chain: permutation validation/inversion, symmetric permutation map, elimination tree + factorisation (L D L' = A exactly over GF(13) for all values, Ok iff all leading minors nonzero), triangular solves, refactor = fresh factor, regularisation/inertia logic at f64, and - through the public QDLDLFactorisation API - that positive_inertia() is the number of positive pivots after new and after update_values + refactor.",
    note="n<=3 quick / n<=4 thorough; patterns enumerated, values/perms symbolic. Outside: backward stability, AMD." + _TB, design="DESIGN.md §3 C12, §6"),
- "C13": dict(text=_KANI + "Decides over GF(7) (GF(13) thorough), for all field values, operator identities of the NN and SOC scalings as computed by the real generic code: W^-1 W = W W^-1 = I, W symmetric, mul_W's alpha/beta form, Hs = W'W = the KKT block (dense, and the sparse expansion eta^2(D+uu'-vv') in dimension 5), w normalised and eta^4 = res(s)/res(z), set_identity_scaling resets the whole scaling state incl. the sparse expansion from arbitrary leftovers, Jordan product laws, affine and corrector terms; NN: Hs z = s, lambda^2 = s o z, W^-1 W = I, the ds offset.",
+ "C13": dict(text=_KANI + "Decides over GF(7) (GF(13) thorough), for all field values, operator identities of the NN and SOC scalings as computed by the real generic code: W^-1 W = W W^-1 = I, W symmetric, mul_W's alpha/beta form, Hs = W'W = the KKT block (dense, and the sparse expansion eta^2(D+uu'-vv') in dimension 5), w normalised and eta^4 = res(s)/res(z), set_identity_scaling resets the whole scaling state incl. the sparse expansion from arbitrary leftovers, Jordan product laws, affine and corrector terms; NN: Hs z = s, lambda^2 = s o z, W^-1 W = I, the ds offset; at f64 the NN KKT block equals s/z exactly and is the operator mul_Hs over 240 binades (no capping).",
    note="SOC dim 3/5, NN dim 2. Outside: the SOC Nesterov-Todd identity (W'W) z = s itself (depends on a coherent choice of nested square roots, no meaning in a field: DESIGN 6.6); floating-point conditioning; PSD (LAPACK)." + _TB, design="DESIGN.md §3 C13, §6"),
  "C14": dict(text=_KANI + "Runs the REAL generic exp/pow cone code at first-order jets over GF(13) (exact differentiation; ln/powf uninterpreted with their derivative rules) and decides that the stored gradient is the derivative of the dual barrier and the stored Hessian the derivative of the gradient, that the dual-scaling fallback is mu*H, that PowerCone::gradient_primal assembles its three components consistently from whatever its scalar Newton solve returns (f64, sign of s3 included), and that the explicit 3x3 Cholesky factorisation used by the third-order correction satisfies L L' = H (fails only for a vanishing leading minor).",
    note="Outside: higher_correction == -1/2 third derivative (attempted in five formulations, SAT does not finish within an hour: DESIGN 6.2.19), membership predicates, the Newton / Wright-omega scalar solves inside gradient_primal (hence conjugacy itself), primal-dual scaling matrix, unit_initialization, generalised power cone." + _TB, design="DESIGN.md §3 C14, §6"),
